@@ -100,7 +100,7 @@ Definition pe_new : outcome (option (list posdata * nat)) :=
 End New.
 
 Definition data_start_fixed (pos : nat) (has_cr : bool) : nat := (pos + 1)%nat.
-Definition data_start_orig (pos : nat) (has_cr : bool) : nat := (pos + if has_cr then 2 else 1)%nat.
+Definition data_start_v0 (pos : nat) (has_cr : bool) : nat := (pos + if has_cr then 2 else 1)%nat.
 
 (** [PresentExtensionsIter::next]: the inner [for current in extensions[start + 1..].iter()]. *)
 Fixpoint iter_scan (name : span) (l : list posdata) (index : nat) : nat * bool :=
@@ -147,10 +147,15 @@ Definition pa_name (data : bytes) (exts : list posdata) (pa : span) : outcome by
   end.
 
 (** [PresentArguments::iter()] driven to the end by [PresentArgumentsIter::next]:
-    [index] starts at 1, [back_index = len]; stops when [index == back_index]. *)
+    [index] starts at 1, [back_index = len]; stops when [index >= back_index]
+    (repaired code; before the repair: [index == back_index], see [args_end_v0]). *)
+Definition args_end (index back_index : nat) : bool := Nat.leb back_index index.
+Definition args_end_v0 (index back_index : nat) : bool := Nat.eqb index back_index.
+Section Args.
+Variable at_end : nat -> nat -> bool.
 Fixpoint args_loop (fuel : nat) (data : bytes) (exts : list posdata) (data_index back_index index : nat)
   : outcome (list bytes) :=
-  if Nat.eqb index back_index then Ok [] else
+  if at_end index back_index then Ok [] else
   match fuel with
   | O => Err E_FUEL_P
   | S fuel' =>
@@ -164,6 +169,7 @@ Fixpoint args_loop (fuel : nat) (data : bytes) (exts : list posdata) (data_index
   end.
 Definition pa_args (data : bytes) (exts : list posdata) (pa : span) : outcome (list bytes) :=
   args_loop (S (length exts)) data exts (fst pa) (snd pa) 1.
+End Args.
 
 Fixpoint omap {X Y} (f : X -> outcome Y) (l : list X) : outcome (list Y) :=
   match l with
@@ -180,7 +186,7 @@ Record parsed : Type := { p_entries : list entry; p_data_start : nat; p_body : b
 
 (** What [resolve_present] sees: the extensions in iteration order with their names and
     arguments, [data_start], and the body after [split_off(data_start)]. *)
-Definition present_parse_with (dso : nat -> bool -> nat) (data : bytes) : outcome (option parsed) :=
+Definition present_parse_with (dso : nat -> bool -> nat) (at_end : nat -> nat -> bool) (data : bytes) : outcome (option parsed) :=
   match pe_new dso data with
   | Panic => Panic
   | Err e => Err e
@@ -189,21 +195,24 @@ Definition present_parse_with (dso : nat -> bool -> nat) (data : bytes) : outcom
       obind (split_off data_start data) (fun body =>
       obind (iter_all (S (length exts)) exts 0) (fun pas =>
       obind (omap (fun pa => obind (pa_name data exts pa) (fun n =>
-                             obind (pa_args data exts pa) (fun a => Ok (n, a)))) pas) (fun es =>
+                             obind (pa_args at_end data exts pa) (fun a => Ok (n, a)))) pas) (fun es =>
       Ok (Some {| p_entries := es; p_data_start := data_start; p_body := body |}))))
   end.
-Definition present_parse := present_parse_with data_start_fixed.
-Definition present_parse_orig := present_parse_with data_start_orig.
+Definition present_parse := present_parse_with data_start_fixed args_end.
+(** the parser as it was before the [data_start] repair (kept for the refutation witness) *)
+Definition present_parse_v0 := present_parse_with data_start_v0 args_end.
 
 (** [PresentArguments::empty().iter().next()] — what a present_fn / present_file extension
     gets when it looks at its arguments ([args: PresentArguments::empty()]). *)
-Definition empty_args_next : outcome (option bytes) :=
-  match args_loop 1 [] [] 0 0 1 with
+Definition empty_args_next_with (at_end : nat -> nat -> bool) : outcome (option bytes) :=
+  match args_loop at_end 1 [] [] 0 0 1 with
   | Ok [] => Ok None
   | Ok (a :: _) => Ok (Some a)
   | Err e => Err e
   | Panic => Panic
   end.
+Definition empty_args_next := empty_args_next_with args_end.
+Definition empty_args_next_v0 := empty_args_next_with args_end_v0.
 
 (** ---- independent specification of the line format (token level) ----
     first line = up to the first LF, an optional CR before it belongs to the terminator;
@@ -245,6 +254,27 @@ Definition spec_present (data : bytes) : option parsed :=
       else None
   end.
 
+(** ---- the grammar of the line, for the theorem [present_line_spec] ----
+    A line is [!> ] followed by words joined by single spaces and ended by LF or CRLF; an empty
+    word stands for one more space, so every run of spaces is covered; [&>] is an ordinary word
+    of the list.  Words contain no space, CR or LF and are UTF-8. *)
+Definition word_ok (w : bytes) : bool := forallb (fun c => negb (is_sep c)) w && utf8_valid w.
+Fixpoint render_words (ws : list bytes) : bytes :=
+  match ws with
+  | [] => []
+  | [w] => w
+  | w :: r => w ++ SPACE :: render_words r
+  end.
+Definition line_end (crlf : bool) : bytes := if crlf then [CR; LF] else [LF].
+Definition render_line (ws : list bytes) (crlf : bool) : bytes :=
+  PRESENT_INTERNAL_PREFIX ++ render_words ws ++ line_end crlf.
+Definition nonempty_words (ws : list bytes) : list bytes :=
+  filter (fun w => match w with [] => false | _ => true end) ws.
+(** the second conjunct: the line does not begin [!>  &> ] (then the parser returns [None]) *)
+Definition line_words_ok (ws : list bytes) : Prop :=
+  Forall (fun w => word_ok w = true) ws /\
+  starts_with PRESENT_INTERNAL_AND (render_words ws ++ [LF]) = false.
+
 (** ---- xval interface ---- *)
 Definition x_pentry (e : entry) : xval := XL [XB (fst e); x_list XB (snd e)].
 Definition x_parsed (p : parsed) : xval :=
@@ -255,12 +285,51 @@ Definition run_present_with (f : bytes -> outcome (option parsed)) (x : xval) : 
   | _ => bad_input
   end.
 Definition run_present := run_present_with present_parse.
-Definition run_present_orig := run_present_with present_parse_orig.
+Definition run_present_v0 := run_present_with present_parse_v0.
 Definition run_present_spec := run_present_with (fun d => Ok (spec_present d)).
 Definition run_empty_args (x : xval) : xval := x_outcome (x_option XB) empty_args_next.
+Definition run_empty_args_v0 (x : xval) : xval := x_outcome (x_option XB) empty_args_next_v0.
+
+(** structured input (L (L word...) crlf rest): the line is rendered from its words (joined by single
+    spaces); [present.spec_line] is the right-hand side of the theorem [present_line_spec] where its
+    hypothesis holds (decided by [words_ok_b]) and the model otherwise. *)
+Definition words_ok_b (ws : list bytes) : bool :=
+  forallb word_ok ws && negb (starts_with PRESENT_INTERNAL_AND (render_words ws ++ [LF])).
+Definition d_line (x : xval) : option (list bytes * bool * bytes) :=
+  match x with
+  | XL [ws; c; XB rest] =>
+      match d_list d_B ws, d_bool c with
+      | Some ws, Some c => Some (ws, c, rest)
+      | _, _ => None
+      end
+  | _ => None
+  end.
+Definition run_present_line (x : xval) : xval :=
+  match d_line x with
+  | Some (ws, c, rest) => x_outcome (x_option x_parsed) (present_parse (render_line ws c ++ rest))
+  | None => bad_input
+  end.
+Definition run_present_spec_line (x : xval) : xval :=
+  match d_line x with
+  | Some (ws, c, rest) =>
+      if words_ok_b ws then
+        x_outcome (x_option x_parsed)
+          (Ok (Some {| p_entries := group_words None (nonempty_words ws);
+                       p_data_start := length (render_line ws c);
+                       p_body := rest |}))
+      else run_present_line x
+  | None => bad_input
+  end.
+(** [present.nopanic]: the statement of [present_never_panics] is checked on the implementation's
+    output by the driver (outcome Ok, data_start <= len, body = input from data_start). *)
+Definition run_nopanic (x : xval) : xval := XL [XN 0].
 
 Definition presentline_table : list (bytes * (xval -> xval)) :=
   [ (B "present.parse", run_present);
-    (B "present.parse_orig", run_present_orig);
+    (B "present.parse_v0", run_present_v0);
     (B "present.spec", run_present_spec);
-    (B "present.empty_args", run_empty_args) ].
+    (B "present.line", run_present_line);
+    (B "present.spec_line", run_present_spec_line);
+    (B "present.nopanic", run_nopanic);
+    (B "present.empty_args", run_empty_args);
+    (B "present.empty_args_v0", run_empty_args_v0) ].
